@@ -33,7 +33,68 @@ fn ells() -> &'static Vec<String> {
     ELLS.get_or_init(|| geodesy::verif_hooks::ellipsoid_table().iter().map(|e| e.0.to_string()).collect())
 }
 fn ell_name() -> BoxedStrategy<String> {
-    any::<u16>().prop_map(|i| ells()[pick(i, ells().len())].clone()).boxed()
+    prop_oneof![
+        8 => any::<u16>().prop_map(|i| ells()[pick(i, ells().len())].clone()),
+        // the "semimajor axis, reciprocal flattening" form, inside the range of the table (1/191 .. 1/334.3)
+        1 => (prop_oneof![Just(6378388.0f64), (6_370_000_000i64..6_400_000_000).prop_map(|mm| mm as f64 / 1000.0)], prop_oneof![Just(297.0f64), (190_000i64..400_000).prop_map(|k| k as f64 / 1000.0)])
+            .prop_map(|(a, rf)| format!("{},{}", num(a), num(rf))),
+    ]
+    .boxed()
+}
+fn ell_class(name: &str) -> &str {
+    if name.contains(',') {
+        "(a,rf pair)"
+    } else {
+        name
+    }
+}
+
+// ---- routes by which an operator can be told its ellipsoid --------------------------------------
+
+const ROUTES: [&str; 6] = [
+    "local ellps=X",
+    "macro argument, body without ellps",
+    "macro body ellps=$ellps",
+    "macro body ellps=$e(GRS80), argument e=X",
+    "macro with argument as a pipeline step",
+    "nested macro, argument given to the outer one",
+];
+
+struct Routed {
+    regs: Vec<(String, String)>,
+    invoke: String,
+    /// text for messages
+    show: String,
+}
+
+/// `base` is the operator definition without any ellps parameter
+fn routed(base: &str, ell: &str, explicit: bool, route: u8) -> Routed {
+    let m = "c14r:op";
+    let (regs, invoke): (Vec<(String, String)>, String) = match route % 6 {
+        0 => (vec![], if explicit || ell != "GRS80" { format!("{base} ellps={ell}") } else { base.to_string() }),
+        1 => (vec![(m.into(), base.into())], format!("{m} ellps={ell}")),
+        2 => (vec![(m.into(), format!("{base} ellps=$ellps"))], format!("{m} ellps={ell}")),
+        3 => (vec![(m.into(), format!("{base} ellps=$e(GRS80)"))], format!("{m} e={ell}")),
+        4 => (vec![(m.into(), base.into())], format!("noop | {m} ellps={ell}")),
+        _ => (vec![(m.into(), base.into()), ("c14r:outer".into(), m.into())], format!("c14r:outer ellps={ell}")),
+    };
+    let show = if regs.is_empty() {
+        invoke.clone()
+    } else {
+        format!("{invoke} [with {}]", regs.iter().map(|(n, b)| format!("{n} := '{b}'")).collect::<Vec<_>>().join(", "))
+    };
+    Routed { regs, invoke, show }
+}
+
+fn apply_routed(r: &Routed, fwd: bool, input: &[Coor4D]) -> Result<(Vec<Coor4D>, usize), Failure> {
+    let mut ctx = Minimal::new();
+    for (n, b) in &r.regs {
+        ctx.register_resource(n, b);
+    }
+    let op = mk_op(&mut ctx, &r.invoke).map_err(|f| Failure { key: f.key, msg: format!("{} ({})", f.msg, r.show) })?;
+    let mut data = input.to_vec();
+    let n = run_op(&ctx, op, fwd, &mut data, &r.show)?;
+    Ok((data, n))
 }
 
 /// The library ellipsoid of that name (guarded) and the reference `El` built from its public (a, f)
@@ -187,7 +248,7 @@ fn tm_check(c: &TmCase, rec: &mut Rec) -> CaseResult {
     let n = geo.len();
 
     // coverage bookkeeping first, so that cases ending in a listed finding are still described
-    rec.class(&c.ell);
+    rec.class(ell_class(&c.ell));
     for p in &c.pts {
         let (dl, la) = (p[0].0, p[1].0);
         if dl != 0.0 && la != 0.0 && la.abs() < 90.0 {
@@ -273,6 +334,9 @@ struct CartCase {
     ell: String,
     /// explicit `ellps=` in the definition (false only for GRS80: the default route)
     explicit: bool,
+    /// how the operator is told its ellipsoid, index into ROUTES
+    #[serde(default)]
+    route: u8,
     /// (lon deg, lat deg, height as a fraction of the semimajor axis, t)
     pts: Vec<P4>,
     /// colatitudes (rad, signed: negative = southern) of additional near-axis points
@@ -284,6 +348,10 @@ const CART_INV_TOL: f64 = 1.0e-3; // the level the property states (cap)
 /// over all table ellipsoids for heights up to 100 km; margin 3.4x, never looser than 1 mm.
 fn cart_tol(el: &El) -> f64 {
     (1.5e-4 * el.a * el.e2s().powi(3) + 1.0e-6).min(CART_INV_TOL)
+}
+
+fn route_strategy() -> BoxedStrategy<u8> {
+    prop_oneof![5 => Just(0u8), 7 => 1u8..6].boxed()
 }
 
 fn cart_strategy() -> BoxedStrategy<CartCase> {
@@ -298,17 +366,19 @@ fn cart_strategy() -> BoxedStrategy<CartCase> {
         }),
         0..=8,
     );
-    (ell_name(), prop::bool::weighted(0.9), pts, near)
-        .prop_map(|(ell, explicit, pts, near_axis)| {
+    (ell_name(), prop::bool::weighted(0.9), route_strategy(), pts, near)
+        .prop_map(|(ell, explicit, route, pts, near_axis)| {
             let explicit = explicit || ell != "GRS80";
-            CartCase { ell, explicit, pts, near_axis }
+            CartCase { ell, explicit, route, pts, near_axis }
         })
         .boxed()
 }
 
 fn cart_check(c: &CartCase, rec: &mut Rec) -> CaseResult {
     let (e, el) = lib_ell(&c.ell)?;
-    let def = if c.explicit { format!("cart ellps={}", c.ell) } else { "cart".to_string() };
+    let rt = routed("cart", &c.ell, c.explicit, c.route);
+    let def = rt.show.clone();
+    rec.class(ROUTES[c.route as usize % 6]);
     let mut geo: Vec<Coor4D> = c.pts.iter().map(|p| Coor4D([p[0].0.to_radians(), p[1].0.to_radians(), p[2].0 * el.a, p[3].0])).collect();
     for q in &c.near_axis {
         let lat = if q[0].0 < 0.0 { -FRAC_PI_2 - q[0].0 } else { FRAC_PI_2 - q[0].0 };
@@ -317,7 +387,7 @@ fn cart_check(c: &CartCase, rec: &mut Rec) -> CaseResult {
     let n = geo.len();
 
     // forward: identical
-    let (cf, _) = apply_def(&def, true, &geo)?;
+    let (cf, _) = apply_routed(&rt, true, &geo)?;
     for i in 0..n {
         let m = match guard(|| e.cartesian(&geo[i])) {
             Ok(m) => m,
@@ -328,7 +398,7 @@ fn cart_check(c: &CartCase, rec: &mut Rec) -> CaseResult {
     }
 
     // inverse: sub-millimetre
-    let (ci, _) = apply_def(&def, false, &cf)?;
+    let (ci, _) = apply_routed(&rt, false, &cf)?;
     for i in 0..n {
         let m = match guard(|| e.geographic(&cf[i])) {
             Ok(m) => m,
@@ -352,7 +422,7 @@ fn cart_check(c: &CartCase, rec: &mut Rec) -> CaseResult {
         vensure!(bits_eq(ci[i][3], m[3]), "cart-inv-time", "'{def}' Inv: 4th element {:?} vs {:?} from Ellipsoid::geographic", ci[i][3], m[3]);
     }
 
-    rec.class(&c.ell);
+    rec.class(ell_class(&c.ell));
     rec.count("comparisons", 2 * n as u64);
     rec.count("near_axis_points", c.near_axis.len() as u64);
     for p in &c.pts {
@@ -378,6 +448,9 @@ struct WrapCase {
     family: u8,
     kind: u8,
     flag: bool,
+    /// how the operator is told its ellipsoid, index into ROUTES
+    #[serde(default)]
+    route: u8,
     /// meaning depends on the family, see `wrap_check`
     pts: Vec<P4>,
 }
@@ -392,8 +465,8 @@ fn wrap_strategy() -> BoxedStrategy<WrapCase> {
     let dist = prop_oneof![5 => 1.6e-7f64..2.98, 2 => 1.6e-7f64..1.6e-3, 1 => Just(0.0f64)];
     let height = prop_oneof![2 => Just(0.0f64), 5 => -500.0f64..9000.0];
     let pts = prop::collection::vec((lat_deg_strategy(), lon_deg_strategy(), azi, dist, height).prop_map(|(la, lo, az, s, h)| (la, lo, az, s, h)), 1..=32);
-    (ell_name(), prop::bool::weighted(0.9), 0u8..4, any::<u16>(), any::<bool>(), pts)
-        .prop_map(|(ell, explicit, family, k, flag, raw)| {
+    (ell_name(), prop::bool::weighted(0.9), 0u8..4, any::<u16>(), any::<bool>(), route_strategy(), pts)
+        .prop_map(|(ell, explicit, family, k, flag, route, raw)| {
             let explicit = explicit || ell != "GRS80";
             let kind = match family {
                 0 => pick(k, LAT_KINDS.len()),
@@ -410,7 +483,7 @@ fn wrap_strategy() -> BoxedStrategy<WrapCase> {
                     _ => p4(la, h, lo, 0.0),                    // (lat deg, height m)
                 })
                 .collect();
-            WrapCase { ell, explicit, family, kind, flag, pts }
+            WrapCase { ell, explicit, family, kind, flag, route, pts }
         })
         .boxed()
 }
@@ -425,15 +498,16 @@ fn cmp_ulps(rec: &mut Rec, metric: &str, key: &str, what: &str, lib: f64, expect
 
 fn wrap_check(c: &WrapCase, rec: &mut Rec) -> CaseResult {
     let (e, el) = lib_ell(&c.ell)?;
-    let ellps = if c.explicit { format!(" ellps={}", c.ell) } else { String::new() };
     let n = c.pts.len();
+    rec.class(ROUTES[c.route as usize % 6]);
     match c.family {
         0 => {
             let kind = LAT_KINDS[c.kind as usize % LAT_KINDS.len()];
-            let def = format!("latitude {kind}{ellps}");
+            let rt = routed(&format!("latitude {kind}"), &c.ell, c.explicit, c.route);
+            let def = rt.show.clone();
             let input: Vec<Coor4D> = c.pts.iter().map(|p| Coor4D([p[0].0.to_radians(), p[1].0.to_radians(), p[2].0, p[3].0])).collect();
-            let (f, _) = apply_def(&def, true, &input)?;
-            let (b, _) = apply_def(&def, false, &f)?;
+            let (f, _) = apply_routed(&rt, true, &input)?;
+            let (b, _) = apply_routed(&rt, false, &f)?;
             let conformal = e.coefficients_for_conformal_latitude_computations();
             let authalic = e.coefficients_for_authalic_latitude_computations();
             let rectifying = e.coefficients_for_rectifying_latitude_computations();
@@ -456,9 +530,10 @@ fn wrap_check(c: &WrapCase, rec: &mut Rec) -> CaseResult {
         }
         1 => {
             let kind = CURV_KINDS[c.kind as usize % CURV_KINDS.len()];
-            let def = format!("curvature {kind}{ellps}");
+            let rt = routed(&format!("curvature {kind}"), &c.ell, c.explicit, c.route);
+            let def = rt.show.clone();
             let input: Vec<Coor4D> = c.pts.iter().map(c4).collect();
-            let (f, _) = apply_def(&def, true, &input)?;
+            let (f, _) = apply_routed(&rt, true, &input)?;
             for i in 0..n {
                 let lat = input[i][0].to_radians();
                 let m = e.meridian_radius_of_curvature(lat);
@@ -482,10 +557,11 @@ fn wrap_check(c: &WrapCase, rec: &mut Rec) -> CaseResult {
         }
         2 => {
             let reversible = c.flag;
-            let def = format!("geodesic{}{ellps}", if reversible { " reversible" } else { "" });
+            let rt = routed(&format!("geodesic{}", if reversible { " reversible" } else { "" }), &c.ell, c.explicit, c.route);
+            let def = rt.show.clone();
             let input: Vec<Coor4D> = c.pts.iter().map(|p| Coor4D([p[0].0, p[1].0, p[2].0, p[3].0 * el.a])).collect();
             // forward (direct problem): (lat1, lon1, azimuth, distance) -> (lat2, lon2, lat1, lon1), all degrees
-            let (f, _) = apply_def(&def, true, &input)?;
+            let (f, _) = apply_routed(&rt, true, &input)?;
             let mut inv_in = vec![];
             for i in 0..n {
                 let a = &input[i];
@@ -498,7 +574,7 @@ fn wrap_check(c: &WrapCase, rec: &mut Rec) -> CaseResult {
                 // inverse problem between origin and the destination just computed
                 inv_in.push(if expect[0].is_nan() { Coor4D([a[0], a[1], -a[0] * 0.5, a[1] + 33.0]) } else { Coor4D([a[0], a[1], expect[0], expect[1]]) });
             }
-            let (b, _) = apply_def(&def, false, &inv_in)?;
+            let (b, _) = apply_routed(&rt, false, &inv_in)?;
             for i in 0..n {
                 let a = &inv_in[i];
                 let from = Coor2D::raw(a[1].to_radians(), a[0].to_radians());
@@ -529,9 +605,10 @@ fn wrap_check(c: &WrapCase, rec: &mut Rec) -> CaseResult {
         _ => {
             let kind = GRAV_KINDS[c.kind as usize % GRAV_KINDS.len()];
             let zero_height = c.flag;
-            let def = format!("gravity{}{}{ellps}", if kind.is_empty() { String::new() } else { format!(" {kind}") }, if zero_height { " zero-height" } else { "" });
+            let rt = routed(&format!("gravity{}{}", if kind.is_empty() { String::new() } else { format!(" {kind}") }, if zero_height { " zero-height" } else { "" }), &c.ell, c.explicit, c.route);
+            let def = rt.show.clone();
             let input: Vec<Coor4D> = c.pts.iter().map(c4).collect();
-            let (f, _) = apply_def(&def, true, &input)?;
+            let (f, _) = apply_routed(&rt, true, &input)?;
             for i in 0..n {
                 let lat = input[i][0].to_radians();
                 let h = input[i][1];
@@ -1427,19 +1504,36 @@ fn hist_others() -> Vec<String> {
     .collect()
 }
 
+/// bodies used when a macro name is (re-)registered between instantiations (no macro names inside: no recursion)
+const REG_BODIES: [&str; 12] = [
+    "addone", "addone inv", "utm zone=32", "utm zone=33", "adapt from=neuf_gon", "adapt from=neuf_deg", "adapt to=enuf_deg",
+    "cart ellps=bessel", "latitude geocentric ellps=intl", "addone | addone", "helmert x=1 y=2 z=3", "noop",
+];
+const REG_PREFIX: &str = "@register ";
+fn reg_step(name: &str, body: &str) -> String {
+    format!("{REG_PREFIX}{name} := {body}")
+}
+fn parse_reg(step: &str) -> Option<(&str, &str)> {
+    step.strip_prefix(REG_PREFIX)?.split_once(" := ")
+}
+
 fn hist_strategy(maxlen: usize) -> BoxedStrategy<HistCase> {
     let fams = hist_families();
     let others = hist_others();
     let nf = fams.len();
     // (family or "other", member) draws; a case concentrates on two families so that a macro,
     // its inverted forms and its body text meet in one context
-    let item = (0u8..10, any::<u16>(), any::<u16>());
+    let item = (0u8..13, any::<u16>(), any::<u16>());
     (any::<u16>(), any::<u16>(), prop::collection::vec(item, 2..=maxlen))
         .prop_map(move |(fa, fb, items)| {
             let (fa, fb) = (pick(fa, nf), pick(fb, nf));
             let seq = items
                 .into_iter()
                 .map(|(w, a, b)| match w {
+                    // (re-)registration of a macro name with another body: the focus family's
+                    // macro (its first member) or any macro name incl. the built-in adaptors
+                    10 | 11 => reg_step(&fams[fa][0], REG_BODIES[pick(b, REG_BODIES.len())]),
+                    12 => reg_step(&fams[pick(a, nf)][0], REG_BODIES[pick(b, REG_BODIES.len())]),
                     0..=3 => fams[fa][pick(b, fams[fa].len())].clone(),
                     4..=5 => fams[fb][pick(b, fams[fb].len())].clone(),
                     6 => {
@@ -1502,19 +1596,40 @@ fn hist_check(c: &HistCase, rec: &mut Rec) -> CaseResult {
     hist_register(&mut m);
     hist_register(&mut p);
     hist_register(&mut g);
+    // registrations in force: the built-in adaptors and the user macros, later registrations of a
+    // name replace earlier ones (documented for run-time registrations; BTreeMap semantics of both contexts)
+    let mut table: std::collections::BTreeMap<String, String> = BUILTIN_ADAPTORS.iter().chain(USER_MACROS.iter()).map(|(n, b)| (n.to_string(), b.to_string())).collect();
+    let mut reregistered: Vec<String> = vec![];
     // (definition, reference behaviour from a fresh context, handles in the three long-lived contexts)
     let mut live: Vec<(String, Behaviour, [Option<OpHandle>; 3])> = vec![];
     for (k, def) in c.seq.iter().enumerate() {
-        // reference: a fresh Minimal that has seen nothing else
-        let mut fresh = Minimal::new();
-        hist_register(&mut fresh);
+        if let Some((name, body)) = parse_reg(def) {
+            m.register_resource(name, body);
+            p.register_resource(name, body);
+            g.register_resource(name, body);
+            if table.get(name).map(|b| b != body).unwrap_or(true) {
+                reregistered.push(name.to_string());
+            }
+            table.insert(name.to_string(), body.to_string());
+            rec.count("registrations", 1);
+            continue;
+        }
+        // reference: a fresh context that has seen nothing but the registrations in force, each
+        // name registered exactly once (Minimal::default() has no pre-registered adaptors)
+        let mut fresh = Minimal::default();
+        for (n, b) in &table {
+            fresh.register_resource(n, b);
+        }
         let (_, reference) = hist_instantiate(&mut fresh, "fresh Minimal", def, &c.pts)?;
+        if reregistered.iter().any(|n| def.split(|ch: char| ch.is_whitespace() || ch == '|').any(|w| w == n)) {
+            rec.count("instantiation_of_reregistered_macro", 1);
+        }
         let (hm, bm) = hist_instantiate(&mut m, "Minimal", def, &c.pts)?;
         let (hp, bp) = hist_instantiate(&mut p, "Plain", def, &c.pts)?;
         let (hg, bg) = hist_instantiate(&mut g, "GridCtx", def, &c.pts)?;
         for (who, b) in [("Minimal", &bm), ("Plain", &bp), ("GridCtx (user Context)", &bg)] {
             vensure!(same_behaviour(&reference, b), "context-history-changes-behaviour",
-                "'{def}' instantiated in a {who} context that had already instantiated {:?} behaves differently from the same definition in a fresh context: {} vs fresh {} (probe {})",
+                "'{def}' instantiated in a {who} context with the history {:?} behaves differently from the same definition in a fresh context holding the registrations in force (latest wins): {} vs fresh {} (probe {})",
                 &c.seq[..k], show_behaviour(b), show_behaviour(&reference), fmt_c4(&c4(&c.pts[0])));
         }
         live.push((def.clone(), reference, [hm, hp, hg]));
@@ -1533,8 +1648,8 @@ fn hist_check(c: &HistCase, rec: &mut Rec) -> CaseResult {
         }
     }
     rec.class(&format!("history of {}", c.seq.len().min(12)));
-    rec.count("instantiations", 4 * c.seq.len() as u64);
-    rec.count("comparisons", (6 * c.seq.len() * 2 * c.pts.len()) as u64);
+    rec.count("instantiations", 4 * live.len() as u64);
+    rec.count("comparisons", (6 * live.len() * 2 * c.pts.len()) as u64);
     // non-trivial: some definition is instantiated after a different spelling of the same family
     // (macro / inverted macro / body text) or repeated
     let fams = hist_families();
@@ -1547,7 +1662,7 @@ fn hist_check(c: &HistCase, rec: &mut Rec) -> CaseResult {
             }
         }
     }
-    if interesting {
+    if interesting || !reregistered.is_empty() {
         rec.nontrivial(&c.seq);
         if c.seq.iter().enumerate().any(|(i, d)| MACROS.iter().chain(USER_MACROS.iter()).any(|(mname, body)| d == body && c.seq[..i].iter().any(|e| e.contains(mname) && e.contains("inv")))) {
             rec.count("body_after_inverted_macro", 1);
@@ -1671,7 +1786,7 @@ fn aux_check(c: &AuxCase, rec: &mut Rec) -> CaseResult {
             rec.nontrivial(&("aux", &c.ell, cell(l.0)));
         }
     }
-    rec.class(&c.ell);
+    rec.class(ell_class(&c.ell));
     rec.count("comparisons", 16 * c.lats.len() as u64);
     Ok(())
 }
@@ -1794,7 +1909,7 @@ fn main() {
     let maxlen = if run.is_thorough() { 24 } else { 12 };
     run.section(
         "context-histories",
-        "sequences of 2..12 (thorough 24) definitions instantiated in ONE long-lived Minimal, Plain and user Context each: the 8 built-in and 3 user macros plain / 'inv' in three spellings / as their body text in two layouts / body inverted, concentrated on two families per case, mixed with other built-ins, pipelines, repeats and rejected definitions; after every instantiation the new handle must behave bit for bit (both directions, counts, Ok/Err) like the same definition in a fresh context, and at the end every earlier handle is re-checked; non-trivial = a definition follows another spelling of the same family",
+        "sequences of 2..12 (thorough 24) definitions instantiated in ONE long-lived Minimal, Plain and user Context each: the 8 built-in and 3 user macros plain / 'inv' in three spellings / as their body text in two layouts / body inverted, concentrated on two families per case, mixed with other built-ins, pipelines, repeats, rejected definitions and (re-)registrations of the macro names (built-in adaptor names included) with one of 12 other bodies in all three contexts; the reference is a fresh context holding the registrations in force (latest wins); after every instantiation the new handle must behave bit for bit (both directions, counts, Ok/Err) like the same definition in a fresh context, and at the end every earlier handle is re-checked; non-trivial = a definition follows another spelling of the same family",
         n,
         move || hist_strategy(maxlen),
         hist_check,
